@@ -17,6 +17,7 @@ EXPLANATION = (
     "returned; (PASS) the selected input's Ready(Some(x)) and Pending are returned as they are in the same call (payload flow / "
     "the poll result itself), leaving `index` untouched; (ZERO) zero-length world returns Ready(None) without polling; (EXT) "
     "StreamExt::chain builds (self, other).")
+EXPLANATION += (' (CTOR) the entry point stores the operands in order: input K of the chain is operand K.')
 ASSUMPTIONS = [
     "Iterator::nth(i) on a slice iterator yields the element at position i (library model)",
 ]
